@@ -385,7 +385,7 @@ def plan(tier):
                 ("fix-ensemble", "ensemble", MENU_ENS, None), ("fix-netcdf", "netcdf", MENU_NC, 3), ("depth2-big", "plain", big_menu(small=True), 2)]
     return [("fix-plain", "plain", MENU16, None), ("fix-obsrange", "obsrange", MENU12, None),
             ("fix-noobs", "noobs", MENU12, None), ("fix-clim", "clim", MENU12, None), ("fix-emptyslice", "emptyslice", MENU_EMPTY + MENU8[:4], None),
-            ("fix-ensemble", "ensemble", MENU_ENS, None), ("fix-netcdf", "netcdf", MENU12, None), ("depth2-big", "plain", big_menu(), 2), ("depth3-mid", "plain", big_menu(small=True), 3), ("depth2-big-clim", "clim", big_menu(), 2),
+            ("fix-ensemble", "ensemble", MENU_ENS, None), ("fix-netcdf", "netcdf", MENU_NC, None), ("depth2-big", "plain", big_menu(), 2), ("depth3-mid", "plain", big_menu(small=True), 3), ("depth2-big-clim", "clim", big_menu(), 2),
             ("depth2-big-obsrange", "obsrange", big_menu(), 2)]
 
 
@@ -397,7 +397,7 @@ def run(tier, only=None):
         t0 = time.time()
         m = Wrapped(config, menu, core.seed())
         res = bfs.bfs(m, max_depth=depth, repo_root=core.REPO, time_cap=(600 if tier == "quick" else 1800),
-                      validate_merges=(None if tier == "thorough" and len(menu) <= 12 else 1000))
+                      validate_merges=(None if tier == "thorough" and len(menu) <= 12 and config != "netcdf" else 1000))
         subs.append(core.Sub.from_e2(
             name, res, bound="config=%s menu=%d requests%s" % (config, len(menu), "" if depth is None else " depth<=%d" % depth),
             rule="state = request history on a 2-input 2x2x2 partly-missing dataset; canonical state = object-graph "
